@@ -238,6 +238,14 @@ CheckReplace(e) ==
     IN /\ V("C04", e, Sane(h) /\ e.perf.new \in Occ(h) /\ h.nodes[e.perf.new].leaf, "replace_node did not leave a terminal at the returned index", "law")
        /\ V("C04", e, ~Sane(h) \/ PwlEq(P0(h), expected, f.dim), "replace_node changed the function outside the replaced node's region (or not inside it)", "function")
 
+\* remove_axes(mask): the masked coordinates are dropped from every node, i.e. the tree is restricted to the slice where they are 0
+CheckRemoveAxes(e) ==
+    LET f == ToT(e.pre)  h == ToT(e.post)  kd == Len(KeepIdx(e.mask)) IN
+    /\ V("C17", e, Sane(h) /\ h.dim = kd, "remove_axes: malformed result or wrong input dimension", "shape")
+    /\ V("C17", e, ~Sane(h) \/ h.dim # kd \/ PwlEq(P0(h), SlicePieces(P0(f), e.mask, [i \in 1..Len(e.mask) |-> 0]), kd),
+         "remove_axes is not the restriction of the tree to the slice at 0 of the removed coordinates", "law")
+    /\ V("C05", e, ~Sane(h) \/ \A i \in Occ(h) : h.nodes[i].st = "I", "remove_axes kept a cached feasibility state although the input space changed", "reset")
+
 \* every step of a history: well-formedness and cache soundness are preserved (C04, C05), LP answers are right (C10)
 CheckHistoryStep(e) ==
     LET f == ToT(e.pre)  h == ToT(e.post) IN
@@ -254,7 +262,7 @@ CheckEvent(e) ==
     THEN Verdict("C11", e, "operation panicked under injected LP faults: " \o e.op, e.op \o "/panic")
     ELSE IF e.res = "panic"
     THEN /\ Verdict("C04", e, "operation panicked on dimension-compatible, well-formed operands: " \o e.op, e.op \o "/panic")
-         /\ Verdict(CASE e.op \in {"compose", "apply_func"} -> "C02" [] e.op \in {"compose_prune", "eliminate"} -> "C03" [] e.op = "reduce" -> "C08" [] OTHER -> "C07",
+         /\ Verdict(CASE e.op \in {"compose", "apply_func"} -> "C02" [] e.op \in {"compose_prune", "eliminate"} -> "C03" [] e.op = "reduce" -> "C08" [] e.op = "remove_axes" -> "C17" [] OTHER -> "C07",
                     e, "operation panicked: " \o e.op, e.op \o "/panic")
     ELSE /\ CASE e.op \in {"compose", "compose_prune"} -> CheckCompose(e)
               [] e.op \in {"add", "sub", "mul", "div"} -> CheckArith(e)
@@ -264,6 +272,7 @@ CheckEvent(e) ==
               [] e.op = "reduce" -> CheckReduce(e)
               [] e.op = "eliminate" -> CheckEliminate(e)
               [] e.op = "replace_node" -> CheckReplace(e)
+              [] e.op = "remove_axes" -> CheckRemoveAxes(e)
          /\ (e.mode # "history" \/ CheckHistoryStep(e))
          /\ (~("faulty" \in DOMAIN e /\ e.faulty) \/ CheckFaulty(e))
          /\ DriftCheck(e)
